@@ -14,7 +14,7 @@ TARGETS = [
     MS + ":train_test_split",
     "verde.spline:SplineCV.fit",
     "verde.spline:SplineCV.predict",
-    "contracts.scoring_c12:cross_val_reference",
+    "contracts.scoring_c12:cross_val_reference", "contracts.scoring_c12:splinecv_reference",
 ]
 MIN_OBLIGATIONS = {"quick": 60, "thorough": 60}
 EXPLANATION = (
